@@ -17,6 +17,9 @@ pub enum WFault {
     GateRight { gate: usize, d: S },
     /// public constant of a constraint changed on both sides
     Constant { at: (usize, Option<usize>), d: S },
+    /// two constraints (adjacent rows) violated by +d and -d: cancels only if
+    /// the two rows were (wrongly) given the same weight
+    ConstantPair { at1: (usize, Option<usize>), at2: (usize, Option<usize>), d: S },
 }
 
 impl WFault {
@@ -28,6 +31,7 @@ impl WFault {
             WFault::GateLeft { .. } => "F10-gate-left",
             WFault::GateRight { .. } => "F10-gate-right",
             WFault::Constant { .. } => "F10-constant",
+            WFault::ConstantPair { .. } => "F10-constant-pair-cancelling",
         }
     }
 }
@@ -129,6 +133,16 @@ pub fn apply(st: &Statement, f: &WFault, n1: usize) -> Option<Statement> {
             Op::Constrain(e) => *e = Expr::sub(e.clone(), Expr::K(d.clone())),
             _ => return None,
         },
+        WFault::ConstantPair { at1, at2, d } => {
+            match op_at(&mut s, *at1)? {
+                Op::Constrain(e) => *e = Expr::sub(e.clone(), Expr::K(d.clone())),
+                _ => return None,
+            }
+            match op_at(&mut s, *at2)? {
+                Op::Constrain(e) => *e = Expr::add(e.clone(), Expr::K(d.clone())),
+                _ => return None,
+            }
+        }
     }
     Some(s)
 }
@@ -184,6 +198,33 @@ pub fn gen_fault(rng: &mut Rng, st: &Statement, n1: usize, n2: usize) -> Option<
     }
     let n = n1 + n2;
     let d = err_scalar(rng);
+    // adjacent constraint rows (top level, phase 1), with their row numbers
+    let mut rows = 0usize;
+    let mut adj: Vec<(usize, usize, usize)> = vec![];
+    let mut prev: Option<(usize, usize)> = None;
+    for (i, op) in st.ops.iter().enumerate() {
+        match op {
+            Op::Constrain(_) => {
+                if let Some((pi, prow)) = prev {
+                    if prow + 1 == rows {
+                        adj.push((pi, i, prow));
+                    }
+                }
+                prev = Some((i, rows));
+                rows += 1;
+            }
+            Op::Mul(..) => {
+                rows += 2;
+                prev = None;
+            }
+            _ => {}
+        }
+    }
+    if rows > 100 && !adj.is_empty() && chance(rng, 2, 3) {
+        let boundary: Vec<&(usize, usize, usize)> = adj.iter().filter(|(_, _, r)| (r + 1) % 64 == 0).collect();
+        let (a, b, _) = if !boundary.is_empty() && chance(rng, 3, 4) { **pick(rng, &boundary) } else { *pick(rng, &adj) };
+        return Some(WFault::ConstantPair { at1: (a, None), at2: (b, None), d: S::U(1 + (below(rng, 5) as u64)) });
+    }
     for _ in 0..8 {
         match below(rng, 7) {
             0 | 1 if !wires.is_empty() => {
